@@ -72,7 +72,11 @@ def modelEndBlock (s : State) : State :=
   match Map.find? s.expiredData hN with
   | none => s
   | some l =>
-    let s := l.foldl (fun s d => (deleteMeta s d).1) s
+    -- stale entries (a model created again with a later expiry) are skipped: the `fix:` of F14
+    let s := l.foldl (fun s d =>
+      match s.getMeta d with
+      | some m => if addU64 m.createdAt m.duration > hN then s else (deleteMeta s d).1
+      | none => (deleteMeta s d).1) s
     { s with expiredData := Map.erase s.expiredData hN }
 
 /-- end blockers in the order wired in app.go: sao, node, (order), model -/
